@@ -3,6 +3,7 @@
 //!   kh record <Module> <seed> <n_events> <out>   impl -> spec (events for trace validation)
 mod common;
 mod m_matcher;
+mod m_striptrim;
 
 use common::*;
 use rand::{rngs::SmallRng, SeedableRng};
@@ -11,6 +12,7 @@ use std::io::{BufRead, BufReader, BufWriter, Write};
 fn replay_line(s: &mut Summary, v: &V) {
     match v["m"].as_str().unwrap_or("?") {
         "Matcher" => m_matcher::replay(s, v),
+        "StripTrim" => m_striptrim::replay(s, v),
         m => panic!("kh: unknown module {m}"),
     }
 }
@@ -47,6 +49,7 @@ fn main() {
             let mut rng = SmallRng::seed_from_u64(seed);
             match module {
                 "Matcher" => m_matcher::record(&mut rng, n, &mut out),
+                "StripTrim" => m_striptrim::record(&mut rng, n, &mut out),
                 m => panic!("kh: unknown module {m}"),
             }
             out.flush().unwrap();
